@@ -251,6 +251,9 @@ def run(ctx):
     ]
 
     # 1. model checking (exhaustive) + generation, TLC runs side by side
+    # (scratch directory and build are created lazily by the context: do it before any thread starts)
+    _ = (ctx.scratch, ctx.build)
+
     def do_svc(item):
         name, kw, mod = item
         r, beh = RR.model_check_svc(ctx, name, workers=plan["svc_workers"], want_behaviours=True, emit_mod=mod, **kw)
